@@ -149,9 +149,9 @@ PROPS["C09"] = {
             "plus the whole sf_error_number table 0..SFE_MAX_ERROR; non-trivial = a history with at least one invalid call followed by a valid one; distinct = hash of (format, mode, ops)",
     "assumptions": BASE_ASSUME + ["where an error is 'recorded' follows each call's documentation: sf_error(handle) for read/write/seek, the return value for sf_set_string / sf_set_chunk / sf_command(GET_CURRENT_SF_INFO), sf_error(NULL) for sf_open",
                                   "zero-length reads/writes are not generated (they return before the error is cleared; the statement does not classify them)",
-                                  "LeakSanitizer's recoverable check runs every 64th history (C16 owns leaks)"],
+                                  "LeakSanitizer's recoverable check runs after every history; its first report ends leak checking in that worker (a leaked block would be reported again for every later case), so leak failures are reported unshrunk"],
     "stages": [
-        {"bin": "c09", "quick": {"cases": 8000, "workers": 16, "budget": 200}, "thorough": {"cases": 60000, "workers": 16, "budget": 1500}},
+        {"bin": "c09", "quick": {"cases": 2500, "workers": 16, "budget": 200}, "thorough": {"cases": 40000, "workers": 16, "budget": 1500}},
     ],
 }
 
@@ -235,9 +235,15 @@ PROPS["C19"] = {
             "non-trivial = at least two scripts that moved audio data; distinct = hash of the case",
     "assumptions": BASE_ASSUME + ["single-threaded interleavings only (the property says so)",
                                   "the clock is pinned, so the time-seeded generator behind ALAC temp-file names starts equal in every child",
-                                  "VOX item counts are kept even (KF-vox-odd-count is a crash that belongs to C09)"],
+                                  "VOX item counts are kept even (see KF-vox-odd-count)",
+                                  "a second stage repeats the search with ASAN_OPTIONS max_malloc_fill_size=0:quarantine_size_mb=0:thread_local_quarantine_size_kb=0, so that state a handle forgot to initialise holds whatever an earlier handle freed"],
     "stages": [
-        {"bin": "c19", "quick": {"cases": 250, "workers": 16, "budget": 250}, "thorough": {"cases": 6000, "workers": 16, "budget": 1800}},
+        {"bin": "c19", "quick": {"cases": 200, "workers": 16, "budget": 250}, "thorough": {"cases": 5000, "workers": 16, "budget": 1800}},
+        # second pass with an allocator that hands freed blocks straight back, unfilled: what an earlier handle left on the heap is what a
+        # later malloc gets, as with a production allocator (ASan's default 0xbe fill and quarantine would hide reads of uninitialised state)
+        {"bin": "c19", "tag": "_reuse", "no_replays": True,
+         "env": {"ASAN_OPTIONS": "detect_leaks=1:abort_on_error=0:exitcode=99:allocator_may_return_null=1:detect_stack_use_after_return=0:max_malloc_fill_size=0:quarantine_size_mb=0:thread_local_quarantine_size_kb=0"},
+         "quick": {"cases": 150, "workers": 16, "budget": 250}, "thorough": {"cases": 4000, "workers": 16, "budget": 1800}},
     ],
 }
 
